@@ -6,7 +6,7 @@ from .. import gen, model, spec
 from ..common import eqstar, plain, Digest
 
 PLAN = {
-    "quick": {"shards": 8, "cases": 1500, "min_nontrivial": 6000, "budget_s": 240},
+    "quick": {"shards": 8, "cases": 3000, "min_nontrivial": 12000, "budget_s": 300},
     "thorough": {"shards": 16, "cases": 6000, "min_nontrivial": 50000, "budget_s": 1500},
 }
 RULE = ("a case is one field spec (family x boundary-valued constructor options; containers with every item/key/value "
